@@ -678,6 +678,10 @@ func createConnHandler(
 							break
 						}
 					}
+					if inErr == io.EOF {
+						// The client is done sending: tell the backend.
+						clientStream.CloseSend() //nolint
+					}
 					wg.Done()
 				}()
 			}
